@@ -3,7 +3,7 @@
    greenlet trees.  The greenback bridges: model M_Greenback.gb_extract (the three elaborators over
    the frame shapes recorded from real runs), evaluated by the correspondence kind "gb". *)
 From Coq Require Import ZArith String.
-Require Import Base M_Slice P_Slice M_Greenlet P_Greenlet M_Greenback P_Greenback.
+Require Import Base M_Slice P_Slice M_Greenlet P_Greenlet M_Greenback P_Greenback P_GreenbackFrames.
 
 (* unstarted or dead: no frames *)
 Theorem C15_inactive_empty : forall w g,
@@ -37,14 +37,14 @@ Theorem C15_suspended_foreign : forall w g fr,
 Proof. exact suspended_foreign. Qed.
 Print Assumptions C15_suspended_foreign.
 
-(* suspended, asked from a child / descendant (finding F8 before the fix): still its own frames.
+(* suspended, asked from a child / descendant (finding F8 before the fix): a greenlet whose
+   gr_frame heads one of the asker's parent chains yields exactly that chain -- on wf w alone.
    Together with C15_suspended_foreign: the answer does not depend on who asks. *)
-Theorem C15_asker_independent_ancestor : forall w g fr A p B,
+Theorem C15_asker_independent_ancestor : forall w g fr p,
   wf w -> true_caller w <> None ->
-  g_frame g = Some fr -> chain_from w fr = p -> hd_error p = Some fr ->
-  thread_frames w = A ++ p ++ B ->
+  g_frame g = Some fr -> In p (w_parents w) -> hd_error p = Some fr ->
   unwrap_greenlet w g = GSlice (SFrames (rev p)).
-Proof. exact suspended_ancestor. Qed.
+Proof. exact suspended_ancestor_wf. Qed.
 Print Assumptions C15_asker_independent_ancestor.
 
 Theorem C15_hypotheses_satisfiable :
@@ -82,3 +82,12 @@ Theorem C15_greenback_example :
   = [FShimCoro; FTarget; FA 2; FS 2; FA 1; FS 1; FA 0; FLeaf; FNested; FNested; FProbe].
 Proof. exact greenback_example. Qed.
 Print Assumptions C15_greenback_example.
+
+(* composition with the general extract_iter model of C10: tabulating the greenback hooks'
+   decisions for a scenario (gb_cfg) and running M_Frames.extract on that table yields exactly the
+   frames and hide flags of gb_extract, no leaf, no error -- for every scenario with n <= 6
+   alternations and j <= 3 nested greenlets, inside and outside (finite sweep, bound as stated) *)
+Theorem C15_greenback_composes_with_extract_iter : forall inside n j,
+  n <= 6 -> j <= 3 -> compose_ok {| sc_inside := inside; sc_n := n; sc_j := j |} = true.
+Proof. exact greenback_composes. Qed.
+Print Assumptions C15_greenback_composes_with_extract_iter.
